@@ -15,6 +15,7 @@
   `FArm.calls` runs all the calls regardless (a retrying caller).
 -/
 import Saltpack.Proofs.ArmorWriterFaults
+import Saltpack.Proofs.ArmoredSenderWritten
 
 namespace Saltpack.Props.C14
 open Saltpack Saltpack.Sender Saltpack.Proofs Saltpack.Proofs.SenderP
@@ -114,6 +115,85 @@ theorem C14_armor62_failure_prefix (typ : Int) (brand : Bytes) (sink : Stream.Si
       r.w.bytes <+: Armor.seal62 typ brand ws.flatten ∧ r.close.2.w.bytes <+: Armor.seal62 typ brand ws.flatten :=
   C14_armor_failure_prefix Armor.params62 (Basex.Enc.wf_of_check _ (by decide)) (by decide) _ _ sink ws
 
+/-! ## the armored SENDERS (`NewEncryptArmor62Stream`, `NewSignArmor62Stream`,
+     `NewSigncryptArmor62SealStream`): packet stream → go-codec → armor encoder stream →
+     faulting writer, `closeForwarder`.  Success means written, through both layers. -/
+
+/-- **success means written, armored**: if the armor constructor, the packet
+    stream's constructor, every `Write` and `Close` (`closeForwarder`: packet
+    stream, then armor stream) reported success, then no underlying write failed
+    and the writer holds exactly the Armor62 text of the all-at-once binary
+    message for the concatenated plaintext -/
+theorem C14_armored_success_means_written (cfg : Cfg) (hp : ∀ b, (cfg.pieces b).flatten = b) (hb : 0 < cfg.bs)
+    (hif : IndexFail cfg.pkt) (v : Version) (hv : cfg.v1shape = (v == v1)) (typ : Int) (brand : Bytes)
+    (sink : Stream.Sink) (headerBytes : Bytes) (ws : List Bytes) :
+    let a := FArm.init62 typ brand ({ sink := sink } : Wr)
+    let i := PSt.init FArm.write cfg.pieces a.2 headerBytes
+    let r := PSt.writes FArm.write cfg i.2 ws
+    let c := armoredClose cfg r.2
+    a.1 = true → i.1 = true → (∀ x ∈ r.1, x.2 = none) → c.1 = none →
+      ∃ M, oneShot cfg v headerBytes ws.flatten = .ok M ∧
+        c.2.codec.w.w.bytes = Armor.seal62 typ brand M ∧ c.2.codec.w.w.faults = 0 := by
+  intro a i r c ha hi hws hc
+  exact armored_success cfg hp hb hif v hv Armor.params62 (Basex.Enc.wf_of_check _ (by decide)) (by decide)
+    (Armor.header typ brand) (Armor.footer typ brand) sink headerBytes ws ha hi hws hc
+
+/-- `NewEncryptArmor62Stream` + `Write`* + `Close`: every call reported success ⇒
+    the writer holds `Armor.seal62 typ brand` of `Encrypt.sealWith` of the
+    concatenated plaintext -/
+theorem C14_encrypt_armored_success_means_written (P : Prims) (bs : Nat) (hb : 0 < bs) (pieces : Bytes → List Bytes)
+    (hp : ∀ b, (pieces b).flatten = b) (v : Version) (sender : Option Bytes) (rs : List Encrypt.Recipient)
+    (eph pk : Bytes) (hbytes : Bytes) (cfg : Cfg) (hs : encryptSetup P bs pieces v sender rs eph pk = .ok (hbytes, cfg))
+    (typ : Int) (brand : Bytes) (sink : Stream.Sink) (ws : List Bytes) :
+    let a := FArm.init62 typ brand ({ sink := sink } : Wr)
+    let i := PSt.init FArm.write cfg.pieces a.2 hbytes
+    let r := PSt.writes FArm.write cfg i.2 ws
+    let c := armoredClose cfg r.2
+    a.1 = true → i.1 = true → (∀ x ∈ r.1, x.2 = none) → c.1 = none →
+      ∃ M, Encrypt.sealWith P bs v sender rs eph pk ws.flatten = .ok M ∧
+        c.2.codec.w.w.bytes = Armor.seal62 typ brand M := by
+  intro a i r c ha hi hws hc
+  have hcfg := encryptSetup_cfg P bs pieces v sender rs eph pk hbytes cfg hs
+  obtain ⟨M, hM, ho, _⟩ := C14_armored_success_means_written cfg (by rw [hcfg.2.1]; exact hp) (by rw [hcfg.1]; exact hb)
+    hcfg.2.2.2 v hcfg.2.2.1 typ brand sink hbytes ws ha hi hws hc
+  exact ⟨M, (sealWith_iff_oneShot P bs pieces v sender rs eph pk ws.flatten M).2 ⟨hbytes, cfg, hs, hM⟩, ho⟩
+
+/-- `NewSignArmor62Stream` likewise: `Sign.attachedWith` -/
+theorem C14_sign_armored_success_means_written (P : Prims) (bs : Nat) (hb : 0 < bs) (pieces : Bytes → List Bytes)
+    (hp : ∀ b, (pieces b).flatten = b) (v : Version) (signer nonce : Bytes) (hbytes : Bytes) (cfg : Cfg)
+    (hs : signSetup P bs pieces v signer nonce = .ok (hbytes, cfg))
+    (typ : Int) (brand : Bytes) (sink : Stream.Sink) (ws : List Bytes) :
+    let a := FArm.init62 typ brand ({ sink := sink } : Wr)
+    let i := PSt.init FArm.write cfg.pieces a.2 hbytes
+    let r := PSt.writes FArm.write cfg i.2 ws
+    let c := armoredClose cfg r.2
+    a.1 = true → i.1 = true → (∀ x ∈ r.1, x.2 = none) → c.1 = none →
+      ∃ M, Sign.attachedWith P bs v signer nonce ws.flatten = .ok M ∧
+        c.2.codec.w.w.bytes = Armor.seal62 typ brand M := by
+  intro a i r c ha hi hws hc
+  have hcfg := signSetup_cfg P bs pieces v signer nonce hbytes cfg hs
+  obtain ⟨M, hM, ho, _⟩ := C14_armored_success_means_written cfg (by rw [hcfg.2.1]; exact hp) (by rw [hcfg.1]; exact hb)
+    hcfg.2.2.2 v hcfg.2.2.1 typ brand sink hbytes ws ha hi hws hc
+  exact ⟨M, (attachedWith_iff_oneShot P bs pieces v signer nonce ws.flatten M).2 ⟨hbytes, cfg, hs, hM⟩, ho⟩
+
+/-- `NewSigncryptArmor62SealStream` likewise: `Signcrypt.sealWith` -/
+theorem C14_signcrypt_armored_success_means_written (P : Prims) (bs : Nat) (hb : 0 < bs) (pieces : Bytes → List Bytes)
+    (hp : ∀ b, (pieces b).flatten = b) (sender : Option Bytes) (rs : List Signcrypt.Recipient) (eph pk : Bytes)
+    (hbytes : Bytes) (cfg : Cfg) (hs : signcryptSetup P bs pieces sender rs eph pk = .ok (hbytes, cfg))
+    (typ : Int) (brand : Bytes) (sink : Stream.Sink) (ws : List Bytes) :
+    let a := FArm.init62 typ brand ({ sink := sink } : Wr)
+    let i := PSt.init FArm.write cfg.pieces a.2 hbytes
+    let r := PSt.writes FArm.write cfg i.2 ws
+    let c := armoredClose cfg r.2
+    a.1 = true → i.1 = true → (∀ x ∈ r.1, x.2 = none) → c.1 = none →
+      ∃ M, Signcrypt.sealWith P bs sender rs eph pk ws.flatten = .ok M ∧
+        c.2.codec.w.w.bytes = Armor.seal62 typ brand M := by
+  intro a i r c ha hi hws hc
+  have hcfg := signcryptSetup_cfg P bs pieces sender rs eph pk hbytes cfg hs
+  obtain ⟨M, hM, ho, _⟩ := C14_armored_success_means_written cfg (by rw [hcfg.2.1]; exact hp) (by rw [hcfg.1]; exact hb)
+    hcfg.2.2.2 v2 hcfg.2.2.1 typ brand sink hbytes ws ha hi hws hc
+  exact ⟨M, (scSealWith_iff_oneShot P bs pieces sender rs eph pk ws.flatten M).2 ⟨hbytes, cfg, hs, hM⟩, ho⟩
+
 /-! ## non-vacuity (toy parameters `toyArm`: words of 2 characters, lines of 2 words, base62;
      header "H", footer "F"; kernel-evaluated) -/
 
@@ -158,5 +238,27 @@ example : (bareRun toyArm [72] [70] [true] []).1 = false := by decide
 -- the hypotheses of the Armor62 form are satisfiable: `params62` is well formed (used above) and a
 -- run with the shipped parameters succeeds
 example : (FArm.init62 0 [] ({} : Wr)).1 = true := by decide
+
+/-! ### …of the armored senders (toy packet stream: blocks of 2 bytes, packet = number ‖ final flag ‖ chunk,
+     one armor-stream `Write` per byte; the shipped Armor62 parameters) -/
+
+def toyPCfg : Cfg :=
+  { bs := 2, v1shape := false, hasErr := true,
+    pkt := fun i c f => .ok ([UInt8.ofNat i, if f then 1 else 0] ++ c), pieces := fun b => b.map ([·]) }
+
+def armoredRun (sink : Stream.Sink) (ws : List Bytes) : Bool × Bool × List (Nat × Option Err) × Option Err × Bytes :=
+  let a := FArm.init62 0 [] ({ sink := sink } : Wr)
+  let i := PSt.init FArm.write toyPCfg.pieces a.2 [7]
+  let r := PSt.writes FArm.write toyPCfg i.2 ws
+  let c := armoredClose toyPCfg r.2
+  (a.1, i.1, r.1, c.1, c.2.codec.w.w.bytes)
+
+-- no fault: the hypotheses of `C14_armored_success_means_written` are met, the writer holds the
+-- Armor62 text of the binary message (header packet c4 01 07, two non-final packets, the final one)
+example : armoredRun [] [[1, 2, 3], [4, 5]] =
+    (true, true, [(3, none), (2, none)], none,
+     Armor.seal62 0 [] [0xc4, 1, 7, 0, 0, 1, 2, 1, 0, 3, 4, 2, 1, 5]) := by decide
+-- the 2nd underlying write (the only word, written by the armor stream's Close) fails once: Close reports it
+example : (armoredRun [false, true] [[1, 2, 3], [4, 5]]).2.2.2.1 = some .ioError := by decide
 
 end Saltpack.Props.C14
